@@ -44,7 +44,7 @@ def axioms(f):
 
 
 CONTRACT_MODULES = ['contracts.schema', 'contracts.vocab', 'contracts.k1_helpers', 'contracts.k8_validator',
-                    'contracts.k9_utils', 'contracts.k6_header', 'contracts.k2_elementlist', 'contracts.k3_element']
+                    'contracts.k9_utils', 'contracts.k6_header', 'contracts.k2_elementlist', 'contracts.k3_element', 'contracts.k6_groups']
 
 
 def build_world(modules=None):
@@ -94,6 +94,8 @@ def build_world(modules=None):
         w.contracts[c.key] = c
     w.specfuncs.update(SPECFUNCS)
     w.axioms.extend(AXIOMS)
+    w.tuple_records = {'RefStruct': ['kind', 'children', 'datatype', 'longname', 'table', 'maxlen'],
+                       'ChildEntry': ['name', 'ref', 'card', 'kind']}
     w.property_funcs = dict(PROPERTY_FUNCS)
     w.assumed_funcs = dict(ASSUMED_FUNCS)
     from pyvc import regex
